@@ -261,6 +261,20 @@ def shape_final_newline_after_trim(prog: dict[str, Any], default_trim: str) -> b
     return False
 
 
+# name -> (opening line(s) separated by '|', closing line, iterations of the body, expression echoed afterwards)
+NEST_TAGS: dict[str, tuple[str, str, int, str]] = {
+    "if": ("if true", "endif", 1, ""),
+    "if-else": ("if false|else", "endif", 1, ""),
+    "unless": ("unless false", "endunless", 1, ""),
+    "case": ("case 1|when 1", "endcase", 1, ""),
+    "case-else": ("case 1|when 2|else", "endcase", 1, ""),
+    "for": ("for VAR in (1..2)", "endfor", 2, ""),
+    "for-else": ("for VAR in nosuch|else", "endfor", 1, ""),
+    "tablerow": ("tablerow VAR in (1..2) cols: 1", "endtablerow", 2, ""),
+    "capture": ("capture VAR", "endcapture", 1, "VAR"),
+    "with": ("with VAR: 1", "endwith", 1, ""),
+}
+
 ORDER_POOL: list[Any] = [None, False, True, 0, 1, -1, 2, 10, 0.0, 1.0, 0.5, 1.5, -0.5, "", "0", "1", "a", "b", "B", "10", "true",
                          "false", " "]
 
@@ -459,6 +473,12 @@ class C01(Prop):
             yield {"kind": "calibration", "name": name, "prog": prog, "data": data, "want": want, "cfg": DEFAULT_CFG,
                    "layout": 1000 + i}
 
+        # O4 - every block tag nests in every block tag (markup and `liquid` line form): a well-formed
+        # template is never rejected, and the innermost text comes out once per iteration
+        for outer in NEST_TAGS:
+            for inner in NEST_TAGS:
+                for form in ("markup", "liquid"):
+                    yield {"kind": "nesting", "outer": outer, "inner": inner, "form": form, "cfg": DEFAULT_CFG}
         # O3 - order laws over every pair of a scalar pool (model-free)
         for i, a in enumerate(ORDER_POOL):
             for j, b in enumerate(ORDER_POOL):
@@ -468,6 +488,46 @@ class C01(Prop):
             for b in ORDER_POOL:
                 for c in ORDER_POOL:
                     yield {"kind": "order-trans", "a": a, "b": b, "c": c, "cfg": DEFAULT_CFG}
+
+    def _check_nesting(self, case: Any) -> Result:
+        res = Result()
+        o, i = NEST_TAGS[case["outer"]], NEST_TAGS[case["inner"]]
+        liquid = case["form"] == "liquid"
+        res.labels.append(f"nesting:{case['form']}")
+
+        def wrap(spec: tuple[str, str, int, str], body: str, depth: int, v: str) -> str:
+            head, end, _mult, after = spec
+            head, after = head.replace("VAR", v), after.replace("VAR", v)
+            if liquid:
+                pad = "  " * depth
+                lines = [pad + ln for ln in head.split("|")] + [body] + [pad + end]
+                if after:
+                    lines.append(pad + "echo " + after)
+                return "\n".join(lines)
+            out = "".join("{% " + ln + " %}" for ln in head.split("|")) + body + "{% " + end + " %}"
+            return out + ("{{ " + after + " }}" if after else "")
+
+        if liquid:
+            src = "{% liquid\n" + wrap(o, wrap(i, "      echo 'X'", 2, "w"), 1, "v") + "\n%}"
+        else:
+            src = wrap(o, wrap(i, "X", 2, "w"), 1, "v")
+        want = o[2] * i[2]
+        env = make_env({}, shopify=True, **config(case["cfg"]))
+        res.evaluations = 1
+        try:
+            out = env.from_string(src).render()
+        except LiquidError as err:
+            res.fail("well-formed", f"nesting-rejected:{case['outer']}-in-{case['form']}:{type(err).__name__}",
+                     f"{case['inner']} inside {case['outer']}: {type(err).__name__}: {str(err).splitlines()[0]}; src={src!r}")
+            return res
+        except Exception as err:  # noqa: BLE001 - C02's business
+            res.labels.append("crash:" + exc_bucket(err))
+            return res
+        res.nontrivial = True
+        if out.count("X") != want:
+            res.fail("well-formed", f"nesting-count:{case['outer']}:{case['inner']}",
+                     f"expected {want} X, rendered {out!r}; src={src!r}")
+        return res
 
     def _check_trans(self, case: Any) -> Result:
         """Transitivity: a < b and b < c imply a < c (and the same for <=)."""
@@ -549,7 +609,7 @@ class C01(Prop):
                 "model_calibration_table": f"{len(TABLE)} documented examples"}
 
     def sample(self, case: Any) -> Any:
-        if case["kind"] in ("order-laws", "order-trans"):
+        if case["kind"] in ("order-laws", "order-trans", "nesting"):
             return case
         try:
             src = to_source(case["prog"]["main"], 0)
@@ -562,6 +622,8 @@ class C01(Prop):
             return self._check_order(case)
         if case["kind"] == "order-trans":
             return self._check_trans(case)
+        if case["kind"] == "nesting":
+            return self._check_nesting(case)
         res = Result()
         prog, data = json.loads(json.dumps(case["prog"])), case["data"]
         opts = config(case["cfg"])
